@@ -67,6 +67,18 @@ PROPS = {
         "trust": ["Flocq 4.1 binary32 (IEEE-754) as the meaning of Rust f32 + - * /", "platform logf: oracle table produced by the harness with f32::ln"],
         "assumptions": ["logf is sampled, not specified: the float layer of C03 is partial (DESIGN.md §2.6)"],
     },
+    "C05": {
+        "subs": [sub("C05", "run_C05", "spec_C05", ["Run.C05"], 1200, 12000)],
+        "run_modules": ["C05"],
+        "rule": "(a) SimilarityCombiner::{row_maxes, col_maxes, calculate} for the three StandardCombiners on Matrix::new(r, c, data), r, c in 0..9 "
+                "(thorough 0..14: 1 x n, n x 1, square, rectangular, a zero dimension), entries from five families (unit interval with ties, "
+                "signed with both zeros, all negative, arbitrary bit patterns, extremes incl. infinities / NaN / subnormals); (b) HpoSet::similarity "
+                "and GroupSimilarity with a table-driven user similarity (half of them asymmetric) on query sequences (A,B), (B,A), (A,A) over "
+                "sets of size 0..9, plain and through ONE CachedSimilarity per sequence, with the log of the wrapped similarity's calls; results "
+                "compared bit for bit (Flocq binary32); non-trivial = rectangular matrix / sets of different sizes >= 2",
+        "trust": ["Flocq 4.1 binary32 (IEEE-754) as the meaning of Rust f32 + / max and comparisons", "Sum for f32 starts from -0.0 (std)"],
+        "assumptions": ["|data| = rows * cols (Matrix's documented contract)", "the sign of a zero returned by f32::max is unspecified and not compared"],
+    },
     "C13": {
         "subs": [sub("C13", "run_C13", "spec_C13", W_IMPORTS + ["Run.C13"], 200, 2000)],
         "run_modules": ["C13"],
